@@ -88,8 +88,9 @@ def apply_op(B, m, op, st):
     elif op == 'Ss':
         # sensitivities for a subset, named as published at this moment:
         # the first parameter and the compartment size (which RP renames)
+        pub = m.parameters()
         m.enable_sensitivities(True, parameter_names=[
-            m.parameters()[0], 'V' if st.get('rp') else 'central.size'])
+            pub[0], 'V' if 'V' in pub else 'central.size'])
         st['sens'] = 'subset'
     elif op == 'S-':
         m.enable_sensitivities(False)
